@@ -39,7 +39,7 @@ PROPS["C20"] = dict(
           "(b) rapid draws strings: grammar of 1..5 number+unit terms (numbers incl. 17-25 digit overflow cases, units incl. d and junk), "
           "1-2 byte edits of those, random strings over the duration alphabet, arbitrary strings, and formatter output; non-trivial: accepted "
           "by at least one of the two parsers; distinct = the string. "
-          "(c) 8 goroutines format and parse 8-48 generated values 40 times each at once; every result must equal the one computed alone."),
+          "Families of near-identical texts (padded to boundary lengths 15-257, variants of the last byte) are parsed in a row. (c) 8 goroutines format and parse 8-48 generated values 40 times each at once; every result must equal the one computed alone."),
     assumptions=["time.ParseDuration (Go toolchain building the harness) is the reference parser",
                  "a day term equals 24 hours; fractional day terms may differ by 1ns from the hours form"],
     stages=[
@@ -64,7 +64,7 @@ PROPS["C01"] = dict(
           "child, grandchild), L and r from built-ins, registered and unregistered numeric levels, and an entry point able to carry r. "
           "Non-trivial: the pair is decided by a clause other than plain built-in ordering, or the entry point is not a plain verb method; "
           "distinct = (clause, entry point, kind of L, kind of r, decision)."
-          " The debug mode may also be changed after the logger's level was set, or switched off again before the call; the side-effect history also runs SetLevel(Debug) on a child / grandchild of an unrelated root; the Print/Println family is also called without a message / without any argument."),
+          " The debug mode may also be changed after the logger's level was set, or switched off again before the call; the side-effect history also runs SetLevel(Debug) on a child / grandchild of an unrelated root; the Print/Println family is also called without a message / without any argument; a fifth of the generated cases run with an application-provided holder of the process-wide switches (states.UpdateEnvWith)."),
     assumptions=["recording writers installed with SetWriter/SetErrorWriter/AddLevelWriter see everything the logger emits",
                  "is.DebugMode() reflects the process-wide debug mode the gate consults"],
     stages=[
@@ -87,7 +87,7 @@ PROPS["C02"] = dict(
           "with nil elements, groups nested to depth 6, empty groups/keys, error values; Println with no or a non-string first argument). "
           "Non-trivial: the list has a malformed/structured element, >=34 args, a Println special form or a blank Print; distinct = "
           "(format, entry kind, shape set, println mode, admitted, number of selected writers)."
-          " Some configurations are built with AddWriter/AddErrorWriter only (both orders; the standard devices stay in the lists, pointed at /dev/null); the flags are set through SetFlags, Add/RemoveFlags, an open SaveFlagsAndMod scope or after its restore function. Messages and values of 64 KiB - 1 MiB are mixed in (and 1 of 80 messages is 70-300 KB long). A further writer (4 kinds) may be added after the first one of a list and removed again before the call (it must receive nothing). The list the record is bound for may have been closed through GetWriter().Close() / GetWriterBy(l).Close() before the call (recorder-only lists): the call must return normally and nobody gets the record twice or in part; delivery itself is not asserted then."),
+          " Some configurations are built with AddWriter/AddErrorWriter only (both orders; the standard devices stay in the lists, pointed at /dev/null); the flags are set through SetFlags, Add/RemoveFlags, an open SaveFlagsAndMod scope or after its restore function. Messages and values of 64 KiB - 1 MiB are mixed in (and 1 of 80 messages is 70-300 KB long). A further writer (4 kinds) may be added after the first one of a list and removed again before the call (it must receive nothing). The list the record is bound for may have been closed through GetWriter().Close() / GetWriterBy(l).Close() before the call (recorder-only lists): the call must return normally and nobody gets the record twice or in part; delivery itself is not asserted then. Once per process 6000 records with distinct valid program counters are handed to WriteThru first (a long-running process has seen thousands of call sites)."),
     assumptions=["the destination set is computed with the C03 routing model (per-level > error-class > normal)"],
     stages=[
         dict(name="delivery", run="^TestDelivery$", quick=30000, thorough=1200000, shards=16, timeout_thorough=3000),
@@ -171,7 +171,7 @@ PROPS["C04"] = dict(
           "tree (keys: identifiers, arbitrary bytes, hostile constants; values: 22 scalar kinds, 17 typed slice kinds, 7 fallback kinds; groups at "
           "any position, possibly empty). Non-trivial: a hostile byte class in message/key/value (quote, backslash, CR/LF, control, ESC, invalid "
           "UTF-8, U+2028), or a group, or a non-string kind; distinct = the set of classes and kinds present."
-          " The logger is put into its format in four ways (Set...Mode, option of New, option of New on a child of a parent in another format, With...Mode method); flags are set through all public ways. A scratch record of a fixed menu (other format, multi-line, groups, nil last, background colour, own layout, child with context keys) may be printed right before the record (pooled printing contexts). Fallback kinds include []error, pointer to struct, map[string]any. The logger may have a (year-less, lossy) time layout of its own, which must govern the time field only; 1 of 80 messages is 70-300 KB long. Half of the records that are not written through are issued by a drawn public entry point able to carry the severity (verbs, Context verbs, Logit, Log, package-level functions on the default logger)."),
+          " The logger is put into its format in four ways (Set...Mode, option of New, option of New on a child of a parent in another format, With...Mode method); flags are set through all public ways. A scratch record of a fixed menu (other format, multi-line, groups, nil last, background colour, own layout, child with context keys) may be printed right before the record (pooled printing contexts). Fallback kinds include []error, pointer to struct, map[string]any. The logger may have a (year-less, lossy) time layout of its own, which must govern the time field only; 1 of 80 messages is 70-300 KB long; strings of exactly 15..8193 bytes (around every power of two) are drawn; with caller info the source tree may be registered as a known path whose replacement contains quote, backslash, TAB, LF or non-ASCII; a garbage collection may precede the record. Half of the records that are not written through are issued by a drawn public entry point able to carry the severity (verbs, Context verbs, Logit, Log, package-level functions on the default logger)."),
     assumptions=["encoding/json (with UseNumber, plus a UTF-8 validity check and a duplicate-name check) is the JSON judge"],
     stages=[
         dict(name="records", run="^TestJSONRecords$", quick=40000, thorough=1600000, shards=16, timeout_thorough=3000),
@@ -190,7 +190,7 @@ PROPS["C05"] = dict(
     note="Keys: non-empty, valid UTF-8, no space/'='/quote/control/'.'; reserved names excluded at every level; runs of blanks between pairs are accepted (statement: space-separated); nil may be printed as the bare placeholder <nil>.",
     rule=("as C04 with keys from the legal-logfmt class. Non-trivial: a group followed by at least one sibling in key order, or a hostile byte class "
           "in message/value, or a non-string kind, or a group; distinct = the set of classes and kinds present."
-          " The logger is put into its format in four ways (Set...Mode, option of New, option of New on a child of a parent in another format, With...Mode method); flags are set through all public ways. Scratch record, own time layout, huge messages and entry points as C04. The logger name may need quoting itself (quote + forged pair, LF, TAB, backslash, control byte, non-ASCII, blank, equals sign)."),
+          " The logger is put into its format in four ways (Set...Mode, option of New, option of New on a child of a parent in another format, With...Mode method); flags are set through all public ways. Scratch record, own time layout, huge messages and entry points as C04. With caller info the source tree may be registered as a known path whose replacement contains quote, backslash, TAB, LF or non-ASCII. The logger name may need quoting itself (quote + forged pair, LF, TAB, backslash, control byte, non-ASCII, blank, equals sign)."),
     assumptions=["strconv.Unquote is the inverse of the quoting the statement asks for", "production mode = harness binary run under a name not ending in .test"],
     stages=[
         dict(name="production", run="^TestLogfmtRecords$", mode="prod", quick=30000, thorough=800000, shards=16, timeout_thorough=3000),
@@ -210,7 +210,7 @@ PROPS["C07"] = dict(
     rule=("rapid draws the scenario; about half of the call lists have >= 13 entries (stability threshold of the sort). Non-trivial: at least two "
           "sources contribute the same key, or >= 13 attributes with a duplicate, or a parent contributes while the logging logger has no own "
           "attributes; distinct = (format, flag, context mode, class set, chain depth, number of source attributes)."
-          " A quarter of the scenarios give one shared Attrs value (spare capacity) to every logger through SetAttrs1; half emit a second record after attributes were added to a drawn logger of the chain, with another call list. Own attributes may also be set with SetAttrs1(slog.NewAttrs(args...)); a scratch record may be printed right before the record (as C04). Chain members may be made by WithSkip(1); ancestors may have a context key of their own with a value in the context (never printed); the call is one of Info/Warn/Print/Println (method, Context variant, or the package-level function of that name on the default logger)."),
+          " A quarter of the scenarios give one shared Attrs value (spare capacity) to every logger through SetAttrs1; half emit a second record after attributes were added to a drawn logger of the chain, with another call list. Own attributes may also be set with SetAttrs1(slog.NewAttrs(args...)); a scratch record may be printed right before the record (as C04). Chain members may be made by WithSkip(1); ancestors may have a context key of their own with a value in the context (never printed); chain depths 6, 9 and 13 and own lists of 127-300 attributes are drawn too; the call is one of Info/Warn/Print/Println (method, Context variant, or the package-level function of that name on the default logger)."),
     assumptions=["merge order stated in the property: context < ancestors (outermost first) < own < call"],
     stages=[dict(name="assembly", run="^TestAssembly$", quick=25000, thorough=4000000, shards=16, timeout_thorough=3000)],
 )
@@ -252,11 +252,12 @@ PROPS["C09"] = dict(
     note="sync.Pool reuse cannot be forced or observed from outside; the last history call runs on the probe's goroutine so that the probe normally picks up the context that call returned to the pool. GC may drop pooled objects (covered statistically).",
     rule=("rapid draws the probe and two histories. Non-trivial: a history contains a record longer than the probe, or of another format, or a "
           "colored record of another severity; distinct = (format, severity, named, caller, class set, lengths of both histories)."
-          " Attribute keys include the reserved field names (time often holding a time.Time); the caller file may lie under two path mappings; the probe destination may be re-entrant (logs through another logger inside Write, for emissions 2 and 4). Second test: two levels registered identically must print identically whether or not one was logged while unregistered. A custom level with a foreground colour only is among the severities; histories contain calls with a value whose String method panics (recovered by the caller) and calls with a marshaller that consumes bytes of the encoder it is handed; history calls from the probe's own call site may run under an inverted privacy-path flag or a further path mapping (undone before the probe)."),
+          " Attribute keys include the reserved field names (time often holding a time.Time); the caller file may lie under two path mappings; the probe destination may be re-entrant (logs through another logger inside Write, for emissions 2 and 4). Second test: two levels registered identically must print identically whether or not one was logged while unregistered. A custom level with a foreground colour only is among the severities; histories contain calls with a value whose String method panics (recovered by the caller) and calls with a marshaller that consumes bytes of the encoder it is handed; history calls from the probe's own call site may run under an inverted privacy-path flag or a further path mapping (undone before the probe) or from another working directory; rarely a history record is longer than a megabyte; probes may have the privacy-path flag off. TestTimeLapse: the same call before and after a record issued 1.05 s later from another working directory."),
     assumptions=["attributes are rebuilt from the same description for every emission (the encoder sorts argument slices in place)"],
     stages=[dict(name="history", run="^TestHistoryIndependence$", quick=8000, thorough=1200000, shards=16, timeout_thorough=3000),
             dict(name="registration", run="^TestRegistrationHistory$", quick=2000, thorough=400000, shards=8, timeout_thorough=3000),
-            dict(name="crossprocess", run="^TestCrossProcess$", quick=1, thorough=1, timeout_thorough=3000)],
+            dict(name="crossprocess", run="^TestCrossProcess$", quick=1, thorough=1, timeout_thorough=3000),
+            dict(name="timelapse", run="^TestTimeLapse$", quick=1, thorough=1)],
 )
 
 PROPS["C11"] = dict(
@@ -270,7 +271,7 @@ PROPS["C11"] = dict(
     note="The shape classification is: starts with '{' and decodes as one JSON object = JSON; contains an SGR sequence = colored; otherwise must tokenise as logfmt starting with time=.",
     rule=("generated: 1-30 steps (set 50%, with/new 20%, probe 30%), boolean lists of length 0-3, then a probe of every logger. Non-trivial: some "
           "logger visited >= 2 states and >= 2 loggers exist; distinct = the history text. Enumerated: all index vectors; non-trivial: >= 2 states visited."
-          " Probes rotate over seven severities incl. a level registered without colours and unregistered ones, and over eight attribute lists (error, []error, group, time/duration, nil/[]byte/[]string, struct/map/float/complex, none)."),
+          " Probes rotate over seven severities incl. a level registered without colours and unregistered ones, and over eight attribute lists (error, []error, group, time/duration, nil/[]byte/[]string, struct/map/float/complex, none). Long runs (255-131071) of one mode call between two probes; NO_COLOR=1 in the environment for a fifteenth of the cases."),
     assumptions=[],
     stages=[
         dict(name="enumerated", run="^TestEnumeratedHistories$", quick=1, thorough=1, timeout_thorough=3000),
@@ -290,7 +291,7 @@ PROPS["C16"] = dict(
     note="Parse-back is skipped for layouts with zone abbreviations (MST), for years outside 0..9999 and for zones whose offset has seconds (historical local mean time) - all limitations of package time's layouts, not of the logger.",
     rule=("rapid draws the scenario. Non-trivial: a non-UTC zone, or a custom layout, or sub-microsecond digits; distinct = (format, path, flags, "
           "local-time flag, UTC mode, layout, zone kind, millennium)."
-          " Flags are set through SetFlags, Reset+Add/Remove, inside a SaveFlagsAndMod scope or after its restore function (a record is emitted under the other flag set first); special instants (time.Time{}, Unix epoch, year 9999) are mixed in."),
+          " Flags are set through SetFlags, Reset+Add/Remove, inside a SaveFlagsAndMod scope or after its restore function (a record is emitted under the other flag set first); special instants (time.Time{}, Unix epoch, year 9999) are mixed in; two layouts have non-ASCII literal text."),
     assumptions=["time/tzdata embedded in the harness binary provides the named zones"],
     stages=[dict(name="timestamps", run="^TestTimestamps$", quick=40000, thorough=12000000, shards=16, timeout_thorough=3000)],
 )
@@ -307,7 +308,7 @@ PROPS["C17"] = dict(
            "or exactly n characters for ShortTag(1..5), gating as the treated-as level, routing to the error writers iff requested."),
     note="Titles are 1-12 ASCII letters, some with ASCII punctuation incl. quote and backslash (ShortTag length is defined on bytes); treated-as targets Panic..Trace; the registry is restored between cases by the verif hook.",
     rule=("rapid draws 1-8 steps (3/4 registrations, 1/4 lookups of a known level). Non-trivial: the history contains a refused registration, a "
-          "case-variant title or a successful registration; distinct = the history text."),
+          "case-variant title or a successful registration; distinct = the history text. The slices MarshalText / MarshalJSON return are overwritten by the caller before the next call (they must be the caller's own)."),
     assumptions=["gating and routing oracles are those of C01 and C03"],
     stages=[
         dict(name="builtins", run="^TestBuiltinRoundTrips$", quick=1, thorough=1),
@@ -328,7 +329,7 @@ PROPS["C18"] = dict(
     note="Not asserted (labelled only): textual look-alike prefixes (/rootkit vs /root) and paths in which a prefix re-occurs inside; when a regexp mapping or the /Volumes rule can interfere only the prefix rule and no-panic are asserted; removal of the home/cwd mapping is only exercised in the caller-field test (cwd). Mappings onto their own prefix and cyclic mapping chains are not generated; when a registered replacement itself lies under a protected prefix, that prefix may show (the user asked for it).",
     rule=("rapid draws 0-6 table operations, the two flags and 1-4 paths. Non-trivial: >= 2 applicable mappings, or an absolute replacement, or a "
           "remove before the query; distinct = (table history, flags, paths)."
-          " A quarter of the mappings are registered with a trailing separator; flags are set through all public ways. The caller-field test emits one or two records from the same call statement, the privacy flag drawn anew for each; table histories contain the general reset functions (Reset, ResetFlags, ResetLevel), which must leave the path tables alone; the working directory may be changed during a case; the bare /Volumes shapes are generated; the caller-field test adds and removes regexp mappings matching the harness file between records of one call site. Paths that no prefix mapping applies to and that a registered regexp mapping matches (generated in the shapes the patterns are written for) must equal the regexp rewrites applied in registration order; RemoveKnownPathRegexpMapping removes the first entry with that expression."),
+          " A quarter of the mappings are registered with a trailing separator; flags are set through all public ways. The caller-field test emits one or two records from the same call statement, the privacy flag drawn anew for each; table histories contain the general reset functions (Reset, ResetFlags, ResetLevel), which must leave the path tables alone; the working directory may be changed during a case; the bare /Volumes shapes and directory names of 60-140 bytes are generated; the caller-field test adds and removes regexp mappings matching the harness file between records of one call site. Paths that no prefix mapping applies to and that a registered regexp mapping matches (generated in the shapes the patterns are written for) must equal the regexp rewrites applied in registration order; RemoveKnownPathRegexpMapping removes the first entry with that expression."),
     assumptions=["HOME and the working directory of the harness process are the home/cwd the package captured at init"],
     stages=[
         dict(name="safety", run="^TestSafety$", quick=15000, thorough=600000, shards=16, timeout_thorough=3000),
@@ -350,10 +351,11 @@ PROPS["C14"] = dict(
     note="Expected file is slog.Safety(file) (C18 owns the path policy); colored mode prints the function without its package path. log.Logger.Output called directly, goroutine entry points, deferred calls and cgo callers are not built.",
     rule=("matrix enumeration plus rapid sampling (privacy flags toggled). Non-trivial: skip >= 1, or an entry point that is not a method of the "
           "logger (package-level, adapter, bridge); distinct = the cell."
-          " Also: log/slog Loggers derived with With/WithGroup, an earlier SetSkip before the final one, a sibling WithSkip child created afterwards, a SetSkip issued after an adapter/bridge was built on the logger, flags set through all public ways. 21 of the 87 call sites are further argument shapes of the same entry points (plain operands, dangling key, non-string first argument, no arguments, Attr/Group arguments, multi-line message) or carry an error value with a stack trace of its own; sampled cases run the issuing statement 1-3 times in a row, every record checked; 4 sites sit in package-level func literals."),
+          " Also: log/slog Loggers derived with With/WithGroup, an earlier SetSkip before the final one, a sibling WithSkip child created afterwards, a SetSkip issued after an adapter/bridge was built on the logger, flags set through all public ways. 21 of the 87 call sites are further argument shapes of the same entry points (plain operands, dangling key, non-string first argument, no arguments, Attr/Group arguments, multi-line message) or carry an error value with a stack trace of its own; sampled cases run the issuing statement 1-3 times in a row, every record checked; 4 sites sit in package-level func literals. TestManyCallSites: every site logs twice in three formats before and after 6000 records from distinct valid program counters."),
     assumptions=["runtime.Callers / CallersFrames give the true logical frames (also for inlined functions)"],
     stages=[
         dict(name="matrix", run="^TestMatrix$", quick=1, thorough=1),
+        dict(name="many-sites", run="^TestManyCallSites$", quick=1, thorough=1),
         dict(name="sampled", run="^TestSampled$", quick=10000, thorough=2400000, shards=16, timeout_thorough=3000),
         dict(name="matrix-noinline", run="^TestMatrix$", tier="thorough", thorough=1, gcflags="all=-l"),
         dict(name="sampled-noinline", run="^TestSampled$", tier="thorough", thorough=800000, shards=16, gcflags="all=-l"),
@@ -400,12 +402,13 @@ PROPS["C10"] = dict(
     note="Each case installs a fresh default logger (the process-wide one keeps children of earlier cases and has no public reset). Every logger gets private recording writers right after creation (child loggers do not inherit writers). The wall clock seeding the anonymous names cannot be owned by the harness: covered by the stress test. The production-binary stage checks the Warn default level.",
     rule=("rapid draws the history. Non-trivial: >= 3 loggers and (a With* and a Set* occurred, or New was called with the name of an existing "
           "child); distinct = the history text."
-          " Child names may repeat names used elsewhere in the forest; the package default level is modelled (changed by the package-level SetLevel only, compared with GetLevel after every step); attrs1 settings may hand the same Attrs value (drawn from a pool with spare capacity) to several loggers, also as ONE argument of Set / With; anonymous New(...) may carry options only; SetSkip is drawn on kept WithSkip children and the parent is asked for the same count again (the kept child carries it again); writers are installed with Set* or with Add* on top of the inherited defaults."),
+          " Child names may repeat names used elsewhere in the forest; the package default level is modelled (changed by the package-level SetLevel only, compared with GetLevel after every step); attrs1 settings may hand the same Attrs value (drawn from a pool with spare capacity) to several loggers, also as ONE argument of Set / With; anonymous New(...) may carry options only; SetSkip is drawn on kept WithSkip children and the parent is asked for the same count again (the kept child carries it again); every argument slice is overwritten after the call that received it returned; TestManyChildren: 1-1100 named and WithSkip children per logger (lookup of earlier children after every creation, Each, Sublogger); writers are installed with Set* or with Add* on top of the inherited defaults."),
     assumptions=["gating oracle = C01 rule incl. the debug-mode side effect of SetLevel(Debug)", "record decoding = C04/C05 decoders, merge = C07 reference"],
     stages=[
         dict(name="testing", run="^TestHierarchy$", quick=4000, thorough=800000, shards=16, timeout_thorough=3000),
         dict(name="production", run="^TestHierarchy$", mode="prod", quick=2000, thorough=400000, shards=16, timeout_thorough=3000),
         dict(name="stress", run="^TestAnonymousChildrenDistinct$", quick=1, thorough=1, timeout_thorough=3000),
+        dict(name="many-children", run="^TestManyChildren$", quick=1, thorough=1),
     ],
 )
 
@@ -422,7 +425,7 @@ PROPS["C08"] = dict(
     note="WEAKEST claim of the set: interleavings are sampled by the Go scheduler, not enumerated or controlled; the race detector only reports races on executed paths. Concurrent reconfiguration while logging is outside the claim and never generated. A race report cannot be shrunk by rapid (it is attributed to the whole test); the replay re-runs the stage with the same seed.",
     rule=("Non-trivial: >= 2 goroutines share a logger and a group value or logger attributes or a parent/child pair are involved; distinct = "
           "(formats present, sharing shape, G bucket, number of loggers, GOMAXPROCS, multi-line)."
-          " Workloads may contain blank Print/Println calls (counted), loggers with context keys (every call carries its own context values) and unregistered numeric levels (one per goroutine); the Group value shared by the callers must be unmodified afterwards. Some calls are plain verb methods without any argument; some pass a group of their own under the key of the logger-level shared group (the call's group wins); the shared group has a sub-group in key order with a repeated key and is compared by value afterwards; argument-less calls use Infof/Warnf/Errorf half of the time. Records may also arrive through log/slog adapters and std log bridges built before or after the loggers were configured, through per-level writers, and with attribute values of several kilobytes."),
+          " Workloads may contain blank Print/Println calls (counted), loggers with context keys (every call carries its own context values) and unregistered numeric levels (one per goroutine); the Group value shared by the callers must be unmodified afterwards. Some calls are plain verb methods without any argument; some pass a group of their own under the key of the logger-level shared group (the call's group wins); the shared group has a sub-group in key order with a repeated key and is compared by value afterwards; argument-less calls use Infof/Warnf/Errorf half of the time; a logger may have 1100 own attributes. Records may also arrive through log/slog adapters and std log bridges built before or after the loggers were configured, through per-level writers, and with attribute values of several kilobytes."),
     assumptions=["the recording writers are mutex-protected and copy the payload before returning"],
     stages=[
         dict(name="race", run="^TestConcurrentWorkloads$", race=True, crash_is_violation=True, quick=400, thorough=16000, shards=8, timeout_quick=900, timeout_thorough=3000),
